@@ -211,15 +211,19 @@ func (s *TranslateFile) SetPrimaryStore(id string, ts TranslateStore) {
 // used for replication by TranslateFile.
 func (s *TranslateFile) handlePrimaryStoreEvent(ev primaryStoreEvent) error {
 	s.mu.Lock()
-	defer s.mu.Unlock()
-
 	if ev.id == s.primaryID {
+		s.mu.Unlock()
 		return nil
 	}
 
-	// Stop translate store replication.
+	// Stop translate store replication. The replication goroutine takes
+	// s.mu itself, so it must not be awaited with the lock held.
 	close(s.replicationClosing)
+	s.mu.Unlock()
 	s.repWG.Wait()
+
+	s.mu.Lock()
+	defer s.mu.Unlock()
 
 	// Set the primary node for translate store replication.
 	s.logger.Debugf("set primary translate store to %s", ev.id)
